@@ -3,31 +3,31 @@
   over the plaintext (L6).
 
   Statements, for every `Params`, every codec `K` (only `K.dec` on the blocks matters), every
-  short-read policy `rd` of the block decompressor, every NON-EMPTY plaintext `p` with compressed
-  blocks `cs` and layer stream `e` (`IsCompressed P K p cs e`: blocks, then the sizes table, block
-  `k` decoding to the `k`-th `block`-byte piece of `p`) whose table fields fit their fixed widths,
-  and every inner stream that behaves like a cursor over `e`:
+  short-read policy `rd` of the block decompressor, every plaintext `p` (the EMPTY one included) with
+  compressed blocks `cs` and layer stream `e` (`IsCompressed P K p cs e`: blocks, then the sizes
+  table, block `k` decoding to the `k`-th `block`-byte piece of `p`), and every inner stream that
+  behaves like a cursor over `e`:
     * `CompRd.isCursor` : the reader (`CompR.seekFull` / `CompR.readFull`, MlaModel/Compress.lean)
                           with the invariant `CompRd.Inv` (MlaModel/Proofs/CompressReader.lean) and
                           position `upos` satisfies `IsCursor … p`: every seek into `[0, |p|]` (from
                           start, current, end) succeeds and lands on the target, every read returns
                           the bytes of `p` at the position, at least one when not at the end, and
                           no operation errs.
-    * `CompR.init_ok`   : `new` + `initialize` find and parse the table and establish the invariant
-                          at position 0.
-    * `CompR.init_empty`: for the EMPTY plaintext the writer emits a table without any block, and
-                          `initialize` answers `DeserializationError` (the repaired reader refuses an
-                          empty table); hence `p ≠ []` in the two theorems above.
+    * `CompR.init_ok`   : `new` + `initialize` find and parse the table (its fields fitting their
+                          fixed widths: `CompFits`) and establish the invariant at position 0.
+    * `CompR.empty_ok`  : for the EMPTY plaintext the writer emits a table without any block;
+                          `initialize` accepts it, the position is `0 = |p|`, every read returns
+                          nothing and the seeks to 0 (start / current / end) return 0.
     * `CompR.read_all`  : reading sequentially from a state at position 0 returns `p`.
 
   Hypotheses added to the statement first proposed, each needed:
     * `rd 0 = 0` — the policy `rd` was only constrained for `m > 0`; with `rd 0 = 5` a `read` into
       an empty buffer (`n = 0`) would hand out up to 5 bytes, contradicting `out.length ≤ n`.
-    * `CompFits` — besides "compressed sizes < 2^32": `block < 2^32` (the uncompressed size of the
-      last block is written on 4 bytes; `UNCOMPRESSED_DATA_SIZE` is a `u32` in Rust) and
-      `8 + 4 * |cs| + 4 < 2^32` (the *length of the table* is written on 4 bytes; a table of
-      2^30 blocks would have its length truncated by `le32` and `initialize` would look for the table
-      at the wrong place).  `|cs| < 2^64` and `|p| < 2^64` follow and are not needed.
+    * `CompFits` (for `init_ok` only) — besides "compressed sizes < 2^32": `block < 2^32` (the
+      uncompressed size of the last block is written on 4 bytes; `UNCOMPRESSED_DATA_SIZE` is a `u32`
+      in Rust) and `8 + 4 * |cs| + 4 < 2^32` (the *length of the table* is written on 4 bytes; a
+      table of 2^30 blocks would have its length truncated by `le32` and `initialize` would look for
+      the table at the wrong place).  `|cs| < 2^64` and `|p| < 2^64` follow and are not needed.
 -/
 import MlaModel.Proofs.CompressReader
 import MlaModel.CodecStored
@@ -35,23 +35,22 @@ namespace MlaModel.C11
 open MlaModel
 
 /-- **L6** for the compression layer: over ANY inner stream that behaves like a cursor over a
-    well-formed compressed stream `e` of the (non-empty) plaintext `p`, the compression reader
+    well-formed compressed stream `e` of the plaintext `p`, the compression reader
     behaves like a cursor over `p`, for every short-read policy `rd` of the block decompressor. -/
 theorem CompRd.isCursor {ι : Type} [Stream ι] (P : Params) (K : Codec) (rd : Nat → Nat)
     (hrd : ∀ m, 0 < m → 0 < rd m ∧ rd m ≤ m) (hrd0 : rd 0 = 0)
     {InvI : ι → Prop} {absI : ι → Nat} (p : Bytes) (cs : List Bytes) (e : Bytes)
-    (hne : p ≠ [])
     (hc : IsCompressed P K p cs e)
     (hI : IsCursor InvI absI e) :
     IsCursor (σ := CompRd P K rd ι) (CompRd.Inv P K p cs e InvI absI) (fun s => s.r.upos) p := by
   refine ⟨fun s h => h.le, ?_, ?_⟩
   · intro s w target h ht hw
-    obtain ⟨r', hs, hi, ha⟩ := CompR.seekFull_ok P K rd p cs e hne hc hI s.r w target h ht
+    obtain ⟨r', hs, hi, ha⟩ := CompR.seekFull_ok P K rd p cs e hc hI s.r w target h ht
       (by cases w <;> simpa using hw)
     refine ⟨⟨r'⟩, ?_, hi, ha⟩
     simp [Stream.seek, hs]
   · intro s n h
-    obtain ⟨out, hr, hi, hout, hlen, hpos, ha⟩ := CompR.readFull_ok P K rd hrd hrd0 p cs e hne hc hI s.r n h
+    obtain ⟨out, hr, hi, hout, hlen, hpos, ha⟩ := CompR.readFull_ok P K rd hrd hrd0 p cs e hc hI s.r n h
     refine ⟨⟨(CompR.readFull P K rd 3 s.r n).1⟩, out, ?_, hi, hout, hlen, hpos, ha⟩
     simp only [Stream.read]
     generalize CompR.readFull P K rd 3 s.r n = res at *
@@ -63,35 +62,67 @@ theorem CompRd.isCursor {ι : Type} [Stream ι] (P : Params) (K : Codec) (rd : N
     position 0 -/
 theorem CompR.init_ok {ι : Type} [Stream ι] (P : Params) (K : Codec) (rd : Nat → Nat)
     {InvI : ι → Prop} {absI : ι → Nat} (p : Bytes) (cs : List Bytes) (e : Bytes)
-    (hne : p ≠ [])
     (hc : IsCompressed P K p cs e)
     (hfit : CompFits P cs)
     (hI : IsCursor InvI absI e) (inner : ι) (hin : InvI inner) :
     ∃ r, CompR.init inner = .ok r ∧ CompRd.Inv (rd := rd) P K p cs e InvI absI ⟨r⟩ ∧ r.upos = 0 := by
-  obtain ⟨i, hinit, hi⟩ := CompR.init_eq P K p cs e hne hc hfit hI inner hin
+  obtain ⟨i, hinit, hi⟩ := CompR.init_eq P K p cs e hc hfit hI inner hin
   exact ⟨_, hinit, ⟨rfl, hi, Nat.zero_le _, by simp, fun _ => Nat.zero_mod _⟩, rfl⟩
-
-/-- the empty plaintext: the layer's stream is a table without blocks, which `initialize` refuses
-    with `DeserializationError` (no panic, no other error) -/
-theorem CompR.init_empty {ι : Type} [Stream ι] (P : Params) (K : Codec)
-    {InvI : ι → Prop} {absI : ι → Nat} (cs : List Bytes) (e : Bytes)
-    (hc : IsCompressed P K [] cs e) (hI : IsCursor InvI absI e) (inner : ι) (hin : InvI inner) :
-    CompR.init inner = .error .deser :=
-  MlaModel.CompR.init_empty P K [] cs e hc hI rfl inner hin
 
 /-- reading sequentially (`take(|p|).read_to_end`) from position 0 returns the whole plaintext,
     whatever the short reads of the decompressor -/
 theorem CompR.read_all {ι : Type} [Stream ι] (P : Params) (K : Codec) (rd : Nat → Nat)
     (hrd : ∀ m, 0 < m → 0 < rd m ∧ rd m ≤ m) (hrd0 : rd 0 = 0)
     {InvI : ι → Prop} {absI : ι → Nat} (p : Bytes) (cs : List Bytes) (e : Bytes)
-    (hne : p ≠ []) (hc : IsCompressed P K p cs e) (hI : IsCursor InvI absI e)
+    (hc : IsCompressed P K p cs e) (hI : IsCursor InvI absI e)
     (s : CompRd P K rd ι) (h : CompRd.Inv P K p cs e InvI absI s) (h0 : s.r.upos = 0) :
     ∃ s', readUpTo (p.length + 1) s p.length = .ok (s', p) ∧ CompRd.Inv P K p cs e InvI absI s' ∧
       s'.r.upos = p.length := by
-  obtain ⟨s', hr, hi, ha⟩ := readUpTo_ok (CompRd.isCursor P K rd hrd hrd0 p cs e hne hc hI)
+  obtain ⟨s', hr, hi, ha⟩ := readUpTo_ok (CompRd.isCursor P K rd hrd hrd0 p cs e hc hI)
     (p.length + 1) s p.length h (Nat.lt_succ_self _)
   simp only [h0, List.drop_zero, List.take_length] at hr ha
   exact ⟨s', hr, hi, by omega⟩
+
+/-- The EMPTY plaintext: the layer's stream is a table without blocks (`cs = []` is forced by
+    `IsCompressed`); `initialize` accepts it, the reader is at position `0 = |p|` in a state
+    satisfying the invariant, and from every state satisfying the invariant every `read` returns
+    nothing and the seeks to 0 from the start, the current position and the end return 0. -/
+theorem CompR.empty_ok {ι : Type} [Stream ι] (P : Params) (K : Codec) (rd : Nat → Nat)
+    (hrd : ∀ m, 0 < m → 0 < rd m ∧ rd m ≤ m) (hrd0 : rd 0 = 0)
+    {InvI : ι → Prop} {absI : ι → Nat} (cs : List Bytes) (e : Bytes)
+    (hc : IsCompressed P K [] cs e) (hI : IsCursor InvI absI e) (inner : ι) (hin : InvI inner) :
+    ∃ r, CompR.init inner = .ok r ∧ CompRd.Inv (rd := rd) P K [] cs e InvI absI ⟨r⟩ ∧ r.upos = 0 ∧
+      ∀ s : CompRd P K rd ι, CompRd.Inv P K [] cs e InvI absI s →
+        (∀ n, ∃ s', Stream.read s n = .ok (s', []) ∧ CompRd.Inv P K [] cs e InvI absI s') ∧
+        (∀ w, w = .start 0 ∨ w = .current 0 ∨ w = .fromEnd 0 →
+          ∃ s', Stream.seek s w = .ok (s', 0) ∧ CompRd.Inv P K [] cs e InvI absI s' ∧
+            s'.r.upos = 0) := by
+  have hcs : cs = [] := by
+    have := hc.count
+    simp only [List.length_nil, Nat.zero_add] at this
+    rw [Nat.div_eq_of_lt (by have := P.hblock; omega)] at this
+    exact List.eq_nil_of_length_eq_zero this
+  subst hcs
+  have hcur := CompRd.isCursor P K rd hrd hrd0 [] [] e hc hI
+  -- `init`: the table ⟨[], 0⟩ always fits, whatever `block` is
+  have ht : tblOf P [] [] = ⟨[], 0⟩ := by simp [tblOf]
+  obtain ⟨i, hi, hinit⟩ := MlaModel.CompR.init_core (absI := absI) [] ⟨[], 0⟩
+    (by have := hc.layout
+        simp only [List.flatten_nil, List.map_nil, List.length_nil, Nat.zero_sub] at this
+        subst this; exact hI)
+    (parseSizes_body _ (by simp) (by decide) (by decide)) (by decide) inner hin
+  refine ⟨_, hinit, ⟨congrArg some ht.symm, hi, Nat.zero_le _, by simp, fun _ => Nat.zero_mod _⟩,
+    rfl, ?_⟩
+  intro s hs
+  have h0 : s.r.upos = 0 := by have := hs.le; simpa using this
+  refine ⟨fun n => ?_, fun w hw => ?_⟩
+  · obtain ⟨s', out, hr, hi', hout, _⟩ := hcur.read_ok s n hs
+    have : out = [] := by rw [hout]; simp
+    subst this
+    exact ⟨s', hr, hi'⟩
+  · obtain ⟨s', hsk, hi', ha⟩ := hcur.seek_ok s w 0 hs (Nat.le_refl _)
+      (by rcases hw with rfl | rfl | rfl <;> simp [h0])
+    exact ⟨s', hsk, hi', ha⟩
 
 /-! ### Non-vacuity: a concrete instance (block = 8, two blocks, the last one of 3 bytes; the
     stored-only brotli codec; inner stream = in-memory cursor) -/
@@ -130,18 +161,23 @@ abbrev exInvI : Cur → Prop := fun c => c.data = exE ∧ c.pos ≤ exE.length
 example : IsCursor (σ := CompRd exP Codec.stored id Cur)
     (CompRd.Inv exP Codec.stored exPlain exCs exE exInvI (·.pos)) (fun s => s.r.upos) exPlain :=
   CompRd.isCursor exP Codec.stored id (fun m hm => ⟨hm, Nat.le_refl m⟩) rfl exPlain exCs exE
-    (by decide) exComp (Cur.isCursor _)
+    exComp (Cur.isCursor _)
 
 /-- and the initial state exists -/
 example : ∃ r, CompR.init (⟨exE, 0⟩ : Cur) = .ok r ∧
     CompRd.Inv (rd := id) exP Codec.stored exPlain exCs exE exInvI (·.pos) ⟨r⟩ ∧ r.upos = 0 :=
-  CompR.init_ok exP Codec.stored id exPlain exCs exE (by decide) exComp exFits (Cur.isCursor _) _
+  CompR.init_ok exP Codec.stored id exPlain exCs exE exComp exFits (Cur.isCursor _) _
     ⟨rfl, Nat.zero_le _⟩
 
-/-- the empty plaintext is refused at `initialize` -/
-example : CompR.init (⟨encSizes ⟨[], 0⟩, 0⟩ : Cur) = .error .deser :=
-  CompR.init_empty exP Codec.stored [] (encSizes ⟨[], 0⟩) ⟨rfl, by decide, fun k h => by simp at h⟩
-    (Cur.isCursor _) _ ⟨rfl, Nat.zero_le _⟩
+/-- the empty plaintext: hypotheses of `CompR.empty_ok` are satisfiable -/
+theorem exCompEmpty : IsCompressed exP Codec.stored [] [] (encSizes ⟨[], 0⟩) :=
+  ⟨rfl, by decide, fun k h => by simp at h⟩
+
+example : ∃ r, CompR.init (⟨encSizes ⟨[], 0⟩, 0⟩ : Cur) = .ok r ∧ r.upos = 0 := by
+  obtain ⟨r, h, _, h0, _⟩ := CompR.empty_ok exP Codec.stored id (fun m hm => ⟨hm, Nat.le_refl m⟩) rfl
+    [] (encSizes ⟨[], 0⟩) exCompEmpty (Cur.isCursor _) (⟨encSizes ⟨[], 0⟩, 0⟩ : Cur)
+    ⟨rfl, Nat.zero_le _⟩
+  exact ⟨r, h, h0⟩
 
 /-- why `rd 0 = 0` is needed: with a policy that is only constrained on `m > 0`, a `read` of at most
     0 bytes right after `initialize` hands out 5 bytes -/
